@@ -1,16 +1,40 @@
 use std::io::Write;
 
+use okane_verif_harness as h;
+
+/// `hx <command> [args]`: cases on stdin (one per line), canonical records on stdout (one per line).
 fn main() {
     let args: Vec<String> = std::env::args().skip(1).collect();
     if args.is_empty() {
         eprintln!("usage: hx <command> [args]  (cases on stdin, one per line)");
         std::process::exit(2);
     }
-    okane_verif_harness::sx::quiet_panics();
+    h::sx::quiet_panics();
     let stdout = std::io::stdout();
     let mut out = std::io::BufWriter::new(stdout.lock());
+    let rest = &args[1..];
     let rc = match args[0].as_str() {
-        "c20" => okane_verif_harness::c20::run(&mut out),
+        "process" => h::corecmd::process(&mut out),
+        "c01" => h::c01::run(rest, &mut out),
+        "c02" => h::c02::run(rest, &mut out),
+        "c03" => h::c03::run(rest, &mut out),
+        "c04" => h::c04::run(rest, &mut out),
+        "c05" => h::c05::run(rest, &mut out),
+        "c06" => h::c06::run(rest, &mut out),
+        "c07" => h::c07::run(rest, &mut out),
+        "c08" => h::c08::run(rest, &mut out),
+        "c09" => h::c09::run(rest, &mut out),
+        "c10" => h::c10::run(rest, &mut out),
+        "c11" => h::c11::run(rest, &mut out),
+        "c12" => h::c12::run(rest, &mut out),
+        "c13" => h::c13::run(rest, &mut out),
+        "c14" => h::c14::run(rest, &mut out),
+        "c15" => h::c15::run(rest, &mut out),
+        "c16" => h::c16::run(rest, &mut out),
+        "c17" => h::c17::run(rest, &mut out),
+        "c18" => h::c18::run(rest, &mut out),
+        "c19" => h::c19::run(rest, &mut out),
+        "c20" => h::c20::run(rest, &mut out),
         other => {
             eprintln!("unknown command {}", other);
             2
